@@ -1,4 +1,5 @@
 import Astria.Ledger.Theorems
+import Astria.Ledger.History
 /-
   C01 — Ledger conservation: value only moves; fees are exact and fully routed.
   Property theorems only; the lemmas are in Astria/Ledger/{Conservation,Theorems}.lean.
@@ -58,5 +59,25 @@ theorem C01_original_counterexample :
 example : feePlan { postAspen := true, postBlackburn := true, sudo := "s", ibcSudo := "i",
                     fees := [(.rollup, ⟨1, 1001⟩)], feeAssets := ["nria"] } .rollup 3 "nria" "a0" 0 =
     some [.blockFee "nria" 3004 0, .debit "a0" "nria" 3004] := by decide
+
+/-- **Every history.** From any state, along every sequence of transactions (taking effect or
+    failing), received packets (acknowledged or rejected), timeouts / error acknowledgements and
+    block ends — as long as the chain does not halt on a failing `end_block` — the total of every
+    asset (all balances + all escrow + block fees) is the initial total plus exactly what the IBC
+    operations minted minus what they burnt (`mintedBy`: a foreign asset received, a bridged-in
+    asset refunded, minus bridged-in assets withdrawn).  Nothing else creates or destroys value. -/
+theorem C01_history_conserves (a : String) (ops : List Op) (s s' : State)
+    (h : runH s ops = some s') : (total s' a : Int) = total s a + totalMinted a s ops :=
+  conservation_history a ops s s' h
+
+/-- Non-vacuity: a two-operation history (a transfer, then the end of the block) runs and moves
+    value without changing the total. -/
+example :
+    let s : State := { postAspen := true, postBlackburn := true, sudo := "s", ibcSudo := "i",
+                       bal := [(("a0", "nria"), 100)], fees := [(.transfer, ⟨2, 0⟩)], feeAssets := ["nria"] }
+    let ops := [Op.tx ⟨"a0", 0, [.transfer "a1" "nria" 10 "nria"]⟩, Op.endBlock]
+    (runH s ops).isSome = true ∧ totalMinted "nria" s ops = 0 ∧
+    ((runH s ops).map fun s' => (getN s'.bal ("a1", "nria"), getN s'.bal ("s", "nria"), total s' "nria")) = some (10, 2, 100) := by
+  decide
 
 end Astria
